@@ -15,7 +15,7 @@ import (
 func specialScenarios(tier string) []engine.Scenario {
 	var scs []engine.Scenario
 	tgs := targets(tier)
-	for _, tg := range []target{tgs[0], tgs[2]} { // BGV 2x8 and CKKS 8 slots
+	for _, tg := range smallTargets(tgs) { // BGV 2x8 and CKKS 8 slots
 		tg := tg
 		for _, ratio := range ratioCycle {
 			ratio := ratio
@@ -32,7 +32,7 @@ func specialScenarios(tier string) []engine.Scenario {
 		}
 	}
 	// dedicated scenarios of the known-defect input classes (see core.go: classNaiveOnlyZero, classManyAfterGiant)
-	for _, tg := range []target{tgs[0], tgs[2]} {
+	for _, tg := range smallTargets(tgs) {
 		tg := tg
 		{
 			cfg := &scenarioCfg{sets: []diagSet{{"identity", []int{0}}}, ratio: -1, entries: []int{eEvaluateNew, eEvaluate, eMany1, eSeqNew2}, dedicated: true}
@@ -49,6 +49,22 @@ func specialScenarios(tier string) []engine.Scenario {
 	}
 	scs = append(scs, permScenarios(tier)...)
 	return scs
+}
+
+// smallTargets: the BGV 2x8 and the CKKS 8-slot (full packing) targets, by name.
+func smallTargets(tgs []target) []target {
+	var r []target
+	for _, want := range []string{"bgv-N4-q4x30-p2x30-t97", "ckks-N4-q50+3x40-p2x50-s40-slots8"} {
+		for _, tg := range tgs {
+			if tg.name == want {
+				r = append(r, tg)
+			}
+		}
+	}
+	if len(r) != 2 {
+		panic("harness: small targets not found")
+	}
+	return r
 }
 
 // ---------------------------------------------------------------------------------------------
